@@ -59,3 +59,9 @@ pub struct ExUtf8Error(core::str::Utf8Error);
 pub uninterp spec fn vx_is_utf8(b: Seq<u8>) -> bool;
 pub assume_specification<'a> [core::str::from_utf8] (v: &'a [u8]) -> (r: std::result::Result<&'a str, core::str::Utf8Error>)
     ensures r is Ok <==> vx_is_utf8(v@), r is Ok ==> (r->Ok_0@.len() == 0 <==> v@.len() == 0), v@.len() == 0 ==> r is Ok;
+
+// Option::is_some_and with a closure is outside the verifiable subset; rule R rewrites `X.is_some_and(|v| v.m())` to a match
+
+// std::time::Duration constructors (values are only passed along to timers)
+pub assume_specification [core::time::Duration::from_secs] (secs: u64) -> (r: core::time::Duration);
+pub assume_specification [core::time::Duration::from_millis] (ms: u64) -> (r: core::time::Duration);
